@@ -710,7 +710,7 @@ func shrinkHistory(c Case, o *h.Outcome) (Case, *h.Outcome) {
 
 func TestEnumerate(t *testing.T) {
 	rec := h.Begin("C05", "enum")
-	maxLen := envInt("VERIF_C05_LEN", h.Pick(4, 6))
+	maxLen := envInt("VERIF_C05_LEN", h.Pick(5, 6))
 	rec.SetRule(fmt.Sprintf(enumRule, maxLen), commonAssumptions...)
 	rec.SetExhaustive(false)
 	defer rec.Flush()
@@ -768,6 +768,105 @@ func genRaw() *rapid.Generator[rawOp] {
 	})
 }
 
+// pickOp interprets raw against the model state: a weighted choice among the
+// enabled operations.  ok=false: nothing chosen (history over).
+func pickOp(m *model, raw rawOp, allowEnd bool) (op Op, ok bool) {
+	type cand struct {
+		w  int
+		op Op
+	}
+	var cs []cand
+	var watched []int
+	for ch := 0; ch <= 2; ch++ {
+		if m.watched(ch) {
+			watched = append(watched, ch)
+		}
+	}
+	if len(watched) > 0 {
+		cs = append(cs, cand{6, Op{K: "reg"}})
+	}
+	if m.watched(0) {
+		cs = append(cs, cand{4, Op{K: "pubp"}})
+	}
+	for j := 1; j <= 2; j++ {
+		if m.watched(0) && m.ch[j].status == stNever {
+			cs = append(cs, cand{3, Op{K: "startsub", C: j}})
+		}
+		if m.watched(j) {
+			cs = append(cs, cand{2, Op{K: "pubs", C: j}}, cand{1, Op{K: "stopsub", C: j}})
+		}
+	}
+	if len(watched) > 0 {
+		cs = append(cs, cand{1, Op{K: "prog"}}, cand{1, Op{K: "conc"}})
+	}
+	switch {
+	case !m.watched(0):
+		cs = append(cs, cand{1, Op{K: "stopp"}})
+	case m.subsWatched() > 0:
+		cs = append(cs, cand{3, Op{K: "stopp"}})
+	default:
+		// ends the history: rare
+		if allowEnd && raw.Aux == 7 {
+			cs = append(cs, cand{1, Op{K: "stopp"}})
+		}
+	}
+	tot := 0
+	for _, x := range cs {
+		tot += x.w
+	}
+	if tot == 0 {
+		return op, false
+	}
+	pick := raw.Pick % tot
+	for _, x := range cs {
+		if pick < x.w {
+			op = x.op
+			break
+		}
+		pick -= x.w
+	}
+	switch op.K {
+	case "reg", "prog", "conc":
+		op.C = watched[raw.Ch%len(watched)]
+		cm := m.ch[op.C]
+		hi := cm.newest + 1
+		var v uint64
+		switch raw.VKind {
+		case 0:
+			v = cm.newest
+			if v > 0 {
+				v--
+			}
+		case 1:
+			v = cm.newest
+		case 2:
+			v = hi
+		case 3:
+			v = cm.selfReg
+		case 4:
+			v = cm.selfReg
+			if v > 0 {
+				v--
+			}
+		case 5:
+			v = cm.relayedMax
+		default:
+			v = raw.V % (hi + 1)
+		}
+		if v > hi {
+			v = hi
+		}
+		op.V = v
+	case "pubp":
+		if raw.Aux%2 == 1 {
+			op.C = 1 + raw.Ch%2
+		}
+	case "startsub":
+		op.V = uint64([]int{0, 0, 0, 1, 2}[raw.Aux%5])
+	}
+	return op, true
+}
+
 func drawCase(t *rapid.T) Case {
 	var c Case
 	c.P0 = uint64([]int{0, 0, 0, 1, 3}[rapid.IntRange(0, 4).Draw(t, "p0")])
@@ -776,101 +875,16 @@ func drawCase(t *rapid.T) Case {
 	m := newModel(c.P0)
 	unwatchedStops := 0
 	for _, raw := range raws {
-		type cand struct {
-			w  int
-			op Op
-		}
-		var cs []cand
-		var watched []int
-		for ch := 0; ch <= 2; ch++ {
-			if m.watched(ch) {
-				watched = append(watched, ch)
-			}
-		}
-		if len(watched) > 0 {
-			cs = append(cs, cand{6, Op{K: "reg"}})
-		}
-		if m.watched(0) {
-			cs = append(cs, cand{4, Op{K: "pubp"}})
-		}
-		for j := 1; j <= 2; j++ {
-			if m.watched(0) && m.ch[j].status == stNever {
-				cs = append(cs, cand{3, Op{K: "startsub", C: j}})
-			}
-			if m.watched(j) {
-				cs = append(cs, cand{2, Op{K: "pubs", C: j}}, cand{1, Op{K: "stopsub", C: j}})
-			}
-		}
-		if len(watched) > 0 {
-			cs = append(cs, cand{1, Op{K: "prog"}}, cand{1, Op{K: "conc"}})
-		}
-		switch {
-		case !m.watched(0):
+		if !m.watched(0) {
 			// nothing is watched any more: at most one further stop request
 			if unwatchedStops > 0 {
 				return c
 			}
 			unwatchedStops++
-			cs = append(cs, cand{1, Op{K: "stopp"}})
-		case m.subsWatched() > 0:
-			cs = append(cs, cand{3, Op{K: "stopp"}})
-		default:
-			// ends the history: rare
-			if raw.Aux == 7 {
-				cs = append(cs, cand{1, Op{K: "stopp"}})
-			}
 		}
-		tot := 0
-		for _, x := range cs {
-			tot += x.w
-		}
-		pick := raw.Pick % tot
-		var op Op
-		for _, x := range cs {
-			if pick < x.w {
-				op = x.op
-				break
-			}
-			pick -= x.w
-		}
-		switch op.K {
-		case "reg", "prog", "conc":
-			op.C = watched[raw.Ch%len(watched)]
-			cm := m.ch[op.C]
-			hi := cm.newest + 1
-			var v uint64
-			switch raw.VKind {
-			case 0:
-				v = cm.newest
-				if v > 0 {
-					v--
-				}
-			case 1:
-				v = cm.newest
-			case 2:
-				v = hi
-			case 3:
-				v = cm.selfReg
-			case 4:
-				v = cm.selfReg
-				if v > 0 {
-					v--
-				}
-			case 5:
-				v = cm.relayedMax
-			default:
-				v = raw.V % (hi + 1)
-			}
-			if v > hi {
-				v = hi
-			}
-			op.V = v
-		case "pubp":
-			if raw.Aux%2 == 1 {
-				op.C = 1 + raw.Ch%2
-			}
-		case "startsub":
-			op.V = uint64([]int{0, 0, 0, 1, 2}[raw.Aux%5])
+		op, ok := pickOp(m, raw, true)
+		if !ok {
+			return c
 		}
 		if !m.valid(op) {
 			t.Fatalf("harness: drew invalid op %v", op)
